@@ -228,11 +228,21 @@ fn utc(rng: &mut impl Rng) -> time::Utc {
 }
 fn socket_addr(rng: &mut impl Rng) -> std::net::SocketAddr {
     let port = match rng.gen_range(0..4) { 0 => 0, 1 => 65535, _ => rng.gen() };
-    if rng.gen_bool(0.5) {
-        std::net::SocketAddr::new(std::net::IpAddr::from(rng.gen::<[u8; 4]>()), port)
-    } else {
-        std::net::SocketAddr::new(std::net::IpAddr::from(rng.gen::<[u8; 16]>()), port)
-    }
+    use std::net::{IpAddr, Ipv4Addr, Ipv6Addr};
+    let ip: IpAddr = match rng.gen_range(0..12) {
+        0 => IpAddr::V4(Ipv4Addr::UNSPECIFIED),
+        1 => IpAddr::V4(Ipv4Addr::LOCALHOST),
+        2 => IpAddr::V4(Ipv4Addr::BROADCAST),
+        3 => IpAddr::V6(Ipv6Addr::UNSPECIFIED),
+        4 => IpAddr::V6(Ipv6Addr::LOCALHOST),
+        // IPv4-mapped and IPv4-compatible IPv6 addresses: distinct values from their IPv4 counterparts
+        5 => IpAddr::V6(Ipv4Addr::from(rng.gen::<[u8; 4]>()).to_ipv6_mapped()),
+        6 => { let v4 = rng.gen::<[u8; 4]>(); let mut b = [0u8; 16]; b[12..].copy_from_slice(&v4); IpAddr::V6(Ipv6Addr::from(b)) }
+        7 => IpAddr::V6(Ipv6Addr::from([0xfe80, 0, 0, 0, rng.gen(), rng.gen(), rng.gen(), rng.gen()])),
+        8 | 9 => IpAddr::from(rng.gen::<[u8; 4]>()),
+        _ => IpAddr::from(rng.gen::<[u8; 16]>()),
+    };
+    std::net::SocketAddr::new(ip, port)
 }
 fn net_address(rng: &mut impl Rng) -> validator::NetAddress {
     validator::NetAddress { addr: socket_addr(rng), version: edge_u64(rng), timestamp: utc(rng) }
